@@ -23,6 +23,10 @@ TRUSTED_BASE = [
     "Rust harness /verif/harness engine c16: MRT/BGP byte encoders written for this engine, real mrt-file-in unit through "
     "rotonda::verif::mrt_import (HTTP queue Processor -> queue -> MrtInRunner::run -> process_file -> Gate), a real RibUnitRunner linked "
     "behind the gate as direct-update target, Rib::match_prefix for the queries",
+    "op MB: the octets of the BGP message inside a BGP4MP record are read by C04's decoder (BgpModel.decode, the implementation's mode) through "
+    "Pipe/PipeRaw.v (numbering of wire prefixes and attribute lists) on the model side and handed to the unit as they are on the other; "
+    "lib/gens/pipegen.py (ASTs for oracle c04enc, the spoilt octet of the half-malformed UPDATEs, C04's mutations); PDUs on which C04's decoder "
+    "and routecore are known to differ (C04's recorded findings and its one tolerance) are left out - they are C04's business",
     "emulated in the hook, not exercised: the first lines of MrtFileIn::run that take name / ingress register / HTTP registration from the Component",
     "modelled, not verified: src/units/mrt_file_in/unit.rs (process_file, process_message, process_state_change, run), src/ingress.rs, "
     "src/units/rib_unit; routecore's MRT and BGP parsers are NOT modelled - what they accept, skip or panic on is written into the model "
@@ -30,7 +34,10 @@ TRUSTED_BASE = [
 ]
 ASSUMPTIONS = [
     "the BGP message inside a BGP4MP MESSAGE (AS2) record is encoded with four-octet AS paths, as the code assumes (it parses every record with SessionConfig::modern())",
-    "one address family of announcements and one of withdrawals per UPDATE; attributes identified by the first hop of the AS path",
+    "abstract ops (M, T): one address family of announcements and one of withdrawals per UPDATE, attribute sets identified by the attribute octets the "
+    "engine's encoder wrote for them; UPDATE octets (MB): any mix of families, attribute sets identified by length + FNV-1a of the stored octets",
+    "which of bgp_msg(), explode_announcements, explode_withdrawals turns an undecodable UPDATE down is not modelled: since the repair of process_file "
+    "each of them means 'logged and skipped' (checked on 300 half-malformed UPDATEs of every shape: all pass bgp_msg() and fail in exactly one explode)",
     "HashMap iteration order is arbitrary: where a lookup has several candidate ids the model lists all of them and the later RIB answers for that peer are not compared",
     "ids are named by the peer the register holds for them and, when a peer has several ids, by their rank in registration order",
     "files of one batch are enqueued by concurrent HTTP requests polled in file order; the unit consumes its queue sequentially",
@@ -281,7 +288,9 @@ LEVEL_TEXT = ("Theorems over all files / queues of the model of process_file and
               "Singles in file order carrying fresh, distinct ids that stand for their index entry's peer, and an empty RIB then holds exactly "
               "those entries; BGP4MP records are applied in file order, each UPDATE as one Bulk attributed to the id that from then on is the "
               "only answer for (unit, address, AS), stable and unambiguous over any queue of update files; queue order; an unreadable file "
-              "is as if never queued; Established->Idle withdraws exactly the found id's routes; refutations for a peer named by two index "
+              "is as if never queued; Established->Idle withdraws exactly the found id's routes; an UPDATE is applied all or nothing on the octets of the "
+              "record (C04's decoder: undecodable = no update and an untouched register, decodable = one Bulk with every route event) and an undecodable one "
+              "is as if it were not in the file, for the update stream, the RIB and the property's reading over any queue; refutations for a peer named by two index "
               "entries and for dump+update records in one file (known findings). Kernel-checked, axiom-free; tied to the real unit by "
               "generated MRT files pushed through the real queue endpoint, queue loop, gate and RIB on every run.")
 DESIGN_REF = "DESIGN.md section 6, C16"
